@@ -703,6 +703,18 @@ pub enum Op {
     FaultyCommit { r: u8, k: u8, info: Option<Vec<(String, J)>> },
     /// submit again the document this replica submitted last (after whatever happened since)
     Resubmit { r: u8 },
+    /// an item that is neither block nor pack appears in the replica's storage (a file another tool put
+    /// there); its bytes are a function of its name, so the same name never carries different bytes
+    Foreign { r: u8, k: u8 },
+}
+
+pub const FOREIGN_NAMES: [&str; 7] = ["notes.txt", "README", "blob.bin", "x.delta.bak", "y.pack.tmp", ".hidden", "\u{fc}.dat"];
+pub fn foreign_item(k: u8) -> (String, Vec<u8>) {
+    let i = k as usize % FOREIGN_NAMES.len();
+    let name = FOREIGN_NAMES[i].to_string();
+    let len = [0usize, 1, 17, 300, 5000, 64, 2][i];
+    let bytes = (0..len).map(|j| ((j * 31 + i * 7) % 251) as u8).collect();
+    (name, bytes)
 }
 
 impl Op {
@@ -726,6 +738,7 @@ impl Op {
             Op::Churn { .. } => "churn",
             Op::FaultyCommit { .. } => "faultycommit",
             Op::Resubmit { .. } => "resubmit",
+            Op::Foreign { .. } => "foreign",
         }
     }
 }
@@ -750,6 +763,7 @@ pub struct Mix {
     pub mergecommit: u32,
     pub churn: u32,
     pub faultycommit: u32,
+    pub foreign: u32,
     pub rich: bool,
     pub rich_info: bool,
 }
@@ -774,6 +788,7 @@ impl Default for Mix {
             mergecommit: 2,
             churn: 1,
             faultycommit: 1,
+            foreign: 0,
             rich: false,
             rich_info: false,
         }
@@ -817,6 +832,7 @@ pub fn op(m: &Mix) -> BoxedStrategy<Op> {
             .boxed(),
     );
     add(if m.update > 0 { 1 } else { 0 }, r.prop_map(|r| Op::Resubmit { r }).boxed());
+    add(m.foreign, (r, any::<u8>()).prop_map(|(r, k)| Op::Foreign { r, k }).boxed());
     add(m.faultycommit, (r, 0u8..2, jinfo(false)).prop_map(|(r, k, info)| Op::FaultyCommit { r, k, info }).boxed());
     add(m.mergecommit, (r, any::<u8>(), edit(m.rich)).prop_map(|(r, from, edit)| Op::MergeCommit { r, from, edit }).boxed());
     proptest::strategy::Union::new_weighted(alts).boxed()
